@@ -216,6 +216,12 @@ fn fixed_table() -> Vec<(&'static str, Check)> {
             let back = s1 == 0 && r1 == (Run::Returned { errors: 0 });
             (back || r2 != (Run::Returned { errors: 0 }) || s2 != 0, format!("`const bit[4] b = \"0101\"; b[0] = 1;` -> {:?}; non-const control -> {:?}", r1, r2))
         }),
+        ("C12-array-ref-type-error-token", || {
+            // an ERROR token in the tree must come with a diagnostic; the well-formed spelling must stay diagnostic-free
+            let (n1, _, t1) = error_elements("def f(readonly ` [int[32], 2] x) { }");
+            let (n2, e2, t2) = error_elements("def f(readonly array[int[32], 2] x) { }");
+            (t1 > 0 && n1 == 0 || n2 != 0 || e2 != 0 || t2 != 0, format!("`def f(readonly ` [int[32], 2] x) {{ }}` -> {n1} diagnostics, {t1} error tokens; well-formed control -> {n2} diagnostics"))
+        }),
         ("C03-barrier-no-operands", || c03("barrier;")),
         ("C03-stmt-body-none", || {
             let (a, wa) = c03("while (true) OPENQASM 3;");
